@@ -1,7 +1,7 @@
 #!/usr/bin/env python3
 """setup_cmd: verifies that the tool chain the checks rely on is present (builds nothing that depends on /repo)"""
 import subprocess, sys, shutil
-need = ['clang++-14', 'opt-14', 'goto-cc', 'goto-instrument', 'cbmc', 'gcc', 'g++', 'c++filt', 'cvc5', 'z3']
+need = ['clang++-14', 'opt-14', 'goto-cc', 'goto-instrument', 'cbmc', 'gcc', 'g++', 'c++filt', 'cvc5', 'z3', 'jq']
 bad = [t for t in need if shutil.which(t) is None]
 if bad: print('missing tools:', bad); sys.exit(1)
 v = subprocess.run(['cbmc', '--version'], stdout=subprocess.PIPE).stdout.decode().strip()
